@@ -241,6 +241,16 @@ class Replayer:
             return await self.tx(lambda: self.node(t[1]).hold())
         if op == "release":
             return await self.tx(lambda: self.node(t[1]).release())
+        if op == "detach":
+            kind, label = _key(t[1])
+
+            def fn():
+                from stepup.core.static_tree import StaticTree
+
+                cls = {"file": File, "step": Step, "st": StaticTree}.get(kind)
+                (wf.root if kind == "root" else wf.find(cls, label)).detach()
+
+            return await self.tx(fn)
         if op == "revert_optional":
             return await self.coro(lambda: revert_optional_steps(wf, SilentReporter()))
         if op == "delete_detached":
